@@ -326,8 +326,13 @@ async fn scenario(fp: FrontPlan) {
                 return;
             }
         }
-        if ad && data.is_empty() && !matches!(*expect, "secure-nx") && rcode == ResponseCode::NXDomain {
+        if ad && data.is_empty() && !matches!(*expect, "secure-nx" | "insecure-alias-nx") && rcode == ResponseCode::NXDomain {
             if exec::violate("C07.front.ad-on-false-denial", &fault_shape, format!("{qdesc}: AD is set on NXDOMAIN for a name that exists (faults {applied_now:?})")) {
+                return;
+            }
+        }
+        if ad && *expect == "insecure-alias-nx" {
+            if exec::violate("C07.front.ad-through-insecure-alias", &fault_shape, format!("{qdesc}: AD is set on the negative answer reached through an unsigned CNAME (faults {applied_now:?})")) {
                 return;
             }
         }
